@@ -28,8 +28,9 @@ THEOREMS += ['CC.C16_gen_construct', 'CC.C16_gen_keep', 'CC.C16_gen_is_zero_node
     'CC.C16_gen_removeOpen', 'CC.C16_gen_contractStep', 'CC.C16_gen_shortPairs', 'CC.C16_gen_removeShort',
     'CC.C16_gen_shortCircuitifyVS', 'CC.C16_gen_openCircuitifyCS', 'CC.C16_gen_removeIdealCS', 'CC.C16_gen_removeIdealVS',
     'CC.C16_gen_passiveNetwork', 'CC.C16_gen_defaults', 'CC.C16_gen_finite']
-LEAN_MODULE_EXTRA = ['CC.Properties.C16Gen']
-OPEN_STATEMENTS = ['converse direction (every solution of the simplified network extends to the original) — covered per instance by the exact-solution oracle',
+LEAN_MODULE_EXTRA = ['CC.Properties.C16Gen', 'CC.Properties.C16Converse']
+THEOREMS += ['CC.C16_open_converse', 'CC.C16_open_iff']
+OPEN_STATEMENTS = ['converse direction for short-circuit contraction (every solution of the contracted network extends to the original): not universally true — a branch parallel to a contracted short is dropped, and if it is an ideal source with V ≠ 0 the original has no solution; proved for open removal (C16_open_converse / C16_open_iff), covered per instance by the exact-solution oracle otherwise',
                    'passive_network port-impedance equality as a theorem (needs the C06 port spec)']
 ASSUMPTIONS = [
     'hand-written model CC/Model/Transform.lean is tied to Network/transformers.py twice: by the translator (CC/Gen/Transformers.lean, regenerated every run, proved equal to the hand model by C16_gen_*) and by the structural correspondence',
@@ -212,14 +213,15 @@ def check_case(ctx, out, desc, fn, keep_ids, arg):
     out.nontrivial((fn, gen_net.shape(desc), bool(keep_ids)))
     (po, io), (pr, ir) = so, sr
     shift = po.get(res.node_zero_label, 0) if fn == 'switch_ground_node' else 0
-    scale = max([abs(x) for x in list(po.values()) + list(io.values())] + [1.0])
+    ps, is_ = gen_net.net_scales(ref_net)
+    pscale = max([abs(x) for x in po.values()] + [ps, 1e-300]); iscale = max([abs(x) for x in io.values()] + [is_, 1e-300])
     ref_branches = {b.id: b for b in ref_net.branches}
     for b in res.branches:
         o = ref_branches[b.id]
         if type(b.element) is not type(o.element) or b.element != o.element:
             out.spec_fail(dict(canon, symptom='record_changed'), f'{fn} changed the record of surviving branch {b.id!r}', gen_net.pretty(desc), desc=desc, fn=fn, keep_ids=keep_ids, arg=arg); return
-        ok = (core.close(pr[b.node1], po[o.node1] - shift, scale) and core.close(pr[b.node2], po[o.node2] - shift, scale)
-              and core.close(ir[b.id], io[b.id], scale))
+        ok = (core.rclose(pr[b.node1], po[o.node1] - shift, pscale) and core.rclose(pr[b.node2], po[o.node2] - shift, pscale)
+              and core.rclose(ir[b.id], io[b.id], iscale))
         if not ok:
             out.spec_fail(dict(canon, symptom='solution_changed'), f'{fn}: solution differs on surviving branch {b.id!r}',
                           gen_net.pretty(desc), impl=dict(result=str(net_struct(res))),
@@ -232,8 +234,8 @@ def check_case(ctx, out, desc, fn, keep_ids, arg):
         from props.c01 import impl_report
         pi, vi, ii, _ = impl_report(res, nodal_analysis_bias_point_solver(res))
         for b in res.branches:
-            if not (core.close(pi[b.node1], pr[b.node1], scale, 1e-7) and core.close(pi[b.node2], pr[b.node2], scale, 1e-7)
-                    and core.close(ii[b.id], ir[b.id], scale, 1e-7)):
+            if not (core.rclose(pi[b.node1], pr[b.node1], pscale, 1e-7) and core.rclose(pi[b.node2], pr[b.node2], pscale, 1e-7)
+                    and core.rclose(ii[b.id], ir[b.id], iscale, 1e-7)):
                 out.spec_fail(dict(canon, symptom='solver_on_result_differs'),
                               f'{fn}: the solver applied to the simplified network does not reproduce the original solution on {b.id!r}',
                               gen_net.pretty(desc), impl=dict(result=str(net_struct(res)), pot=str(pi), i=str(ii)),
